@@ -330,7 +330,7 @@ def run(tier):
     ndir = os.path.join(work, "nest")
     os.makedirs(ndir, exist_ok=True)
     njobs = []
-    for depth in (10, 31, 32, 33, 34, 100, 200, 500, 999, 1000, 1001, 2000, 50000):
+    for depth in (10, 31, 32, 33, 34, 100, 200, 500, 999, 1000, 1001, 2000, 50000, 200000):      # the real tool also FREES what it parsed
         for fam, text in nesting(depth):
             pth = os.path.join(ndir, "%s_%d.nano" % (fam, depth))
             with open(pth, "w") as f:
